@@ -94,12 +94,12 @@ var solvers = []solverSpec{
 	{name: "z3-5.1.0", bin: "z3-new", args: func(f string, t int) []string { return []string{"-smt2", fmt.Sprintf("-T:%d", t), f} }},
 	{name: "z3-4.8.12", bin: "z3", args: func(f string, t int) []string { return []string{"-smt2", fmt.Sprintf("-T:%d", t), f} }},
 	{name: "cvc5-1.0.3", bin: "cvc5", args: func(f string, t int) []string {
-		return []string{"--lang=smt2", "--incremental", fmt.Sprintf("--tlimit=%d", t*1000), f}
+		return []string{"--lang=smt2", "--incremental", "--strings-exp", fmt.Sprintf("--tlimit=%d", t*1000), f}
 	}},
 }
 
 func SolverVersions() string {
-	return "z3-new (5.1.0) -smt2 -T:<t> <file>; z3 (4.8.12) -smt2 -T:<t> <file>; cvc5 (1.0.3) --lang=smt2 --incremental --tlimit=<ms> <file>"
+	return "z3-new (5.1.0) -smt2 -T:<t> <file>; z3 (4.8.12) -smt2 -T:<t> <file>; cvc5 (1.0.3) --lang=smt2 --incremental --strings-exp --tlimit=<ms> <file>"
 }
 
 type solveResult struct {
